@@ -144,11 +144,23 @@ def _child(plan, fd_in, fd_out, fd_err, fd_res):
             os._exit(0)
         done[0] = True
         try:
-            for f in (sys.stdout, sys.stderr):
+            try:
+                sys.stdout.flush()
+            except BaseException as e:
+                # interpreter shutdown: a failing final flush of sys.stdout is
+                # reported on stderr and turns the exit status into 120
                 try:
-                    f.flush()
+                    os.write(2, ("Exception ignored in: <_io.TextIOWrapper "
+                                 "name='<stdout>' mode='w' encoding='utf-8'>\n"
+                                 "%s: %s\n" % (type(e).__name__, e)).encode())
                 except BaseException:
                     pass
+                if status in ('ok',) or status.startswith('exit:'):
+                    status = 'exit:120'
+            try:
+                sys.stderr.flush()
+            except BaseException:
+                pass
             # emulate interpreter exit: flush files yalafi opened on fd 1
             sh = sys.modules.get('yalafi.shell.shell')
             f = getattr(sh, 'out_utf8', None) if sh else None
